@@ -386,6 +386,16 @@ func (s *scope) resolve(key instanceKey, descriptor *Descriptor) (any, error) {
 			return instance, nil
 		}
 
+		// A Close that overlaps this resolution empties the singleton table
+		// after the disposed check in Get: report the disposed state rather
+		// than a singleton that was never built.
+		if atomic.LoadInt32(&s.disposed) != 0 {
+			return nil, ErrScopeDisposed
+		}
+		if atomic.LoadInt32(&s.rootProvider.disposed) != 0 {
+			return nil, ErrProviderDisposed
+		}
+
 		// Singleton should have been created at build time
 		return nil, &ResolutionError{
 			ServiceType: key.Type,
